@@ -3,6 +3,8 @@ package rules
 import (
 	"go/ast"
 	"go/constant"
+	"go/token"
+	"go/types"
 	"strconv"
 	"strings"
 
@@ -321,4 +323,270 @@ func tokenAgreeRule(R string) RuleFunc {
 			}
 		}
 	}
+}
+
+// addrOrderRule: names gathered while walking the unnamed types are sorted before they become observable.
+func addrOrderRule(R string) RuleFunc {
+	return func(c *core.Ctx) {
+		c.Rule(R, "JSchema.CollectUserTypes (and the helpers of the package it calls): the unnamed types of a schema are named after heap addresses (`#0xc000...`), so the ORDER in which they are walked - sorted by name or not - differs from run to run. Whatever is collected inside a loop over those names goes into a list that is passed to sort.Strings before a loop over it adds to the used-types set; nothing is added to the set directly inside such a loop. Otherwise the order of UsedUserTypes() depends on where the allocator put the rule-sets of an `or` rule")
+		c.Floor(R, 1)
+		root := c.P.FindDecl("(*notations/jschema.JSchema).CollectUserTypes")
+		if root == nil {
+			c.Unresolved(R, "(*notations/jschema.JSchema).CollectUserTypes")
+			return
+		}
+		decls := helperBodies(c, root, 2)
+		mentionsHash := func(n ast.Node) bool {
+			s := core.ExprStr0(n)
+			return strings.Contains(s, `"#"`) || strings.Contains(s, `'#'`)
+		}
+		// functions that return a list of unnamed-type names / a list collected in their order
+		returnsUnnamed := map[string]bool{}
+		returnsTainted := map[string]bool{}
+		addsToSet := map[string]bool{}            // functions that add to the used-types set (directly or through such a function)
+		paramUnnamed := map[string]map[int]bool{} // parameters that receive a list of unnamed-type names
+		type result struct {
+			bad   []string
+			loops int
+		}
+		analyse := func(hd *core.DeclSite) result {
+			var res result
+			body := hd.Decl.Body
+			unnamed := map[string]bool{}
+			tainted := map[string]token.Pos{} // list -> end of the loop that tainted it
+			self, _ := hd.Pkg.TypesInfo.Defs[hd.Decl.Name].(*types.Func)
+			if self != nil && hd.Decl.Type.Params != nil {
+				k := 0
+				for _, fl := range hd.Decl.Type.Params.List {
+					for _, nm := range fl.Names {
+						if paramUnnamed[self.FullName()][k] {
+							unnamed[nm.Name] = true
+						}
+						k++
+					}
+				}
+			}
+			isUnnamedExpr := func(e ast.Expr) bool {
+				e = ast.Unparen(e)
+				if unnamed[core.ExprStr(e)] {
+					return true
+				}
+				if call, isC := e.(*ast.CallExpr); isC {
+					if f, ok := core.Callee(hd.Pkg, call).(*types.Func); ok && returnsUnnamed[f.FullName()] {
+						return true
+					}
+				}
+				return false
+			}
+			callsAdder := func(m ast.Node) (*ast.CallExpr, bool) {
+				call, ok := m.(*ast.CallExpr)
+				if !ok {
+					return nil, false
+				}
+				if f, isF := core.Callee(hd.Pkg, call).(*types.Func); isF && addsToSet[f.FullName()] {
+					return call, true
+				}
+				return nil, false
+			}
+			// (A) lists of unnamed-type names: appended to under a '#' test inside a range over a map, or the result of a helper that does so
+			ast.Inspect(body, func(n ast.Node) bool {
+				switch x := n.(type) {
+				case *ast.RangeStmt:
+					if t := core.TypeOf(hd.Pkg, x.X); t != nil {
+						if _, isMap := t.Underlying().(*types.Map); isMap && mentionsHash(x.Body) {
+							ast.Inspect(x.Body, func(m ast.Node) bool {
+								if as, ok := m.(*ast.AssignStmt); ok && len(as.Lhs) == 1 && len(as.Rhs) == 1 {
+									if call, isC := as.Rhs[0].(*ast.CallExpr); isC && core.ExprStr(call.Fun) == "append" {
+										unnamed[core.ExprStr(as.Lhs[0])] = true
+									}
+								}
+								return true
+							})
+						}
+					}
+				case *ast.AssignStmt:
+					if len(x.Lhs) >= 1 && len(x.Rhs) == 1 {
+						if call, isC := ast.Unparen(x.Rhs[0]).(*ast.CallExpr); isC {
+							if f, ok := core.Callee(hd.Pkg, call).(*types.Func); ok {
+								if returnsUnnamed[f.FullName()] {
+									unnamed[core.ExprStr(x.Lhs[0])] = true
+								}
+								if returnsTainted[f.FullName()] {
+									tainted[core.ExprStr(x.Lhs[0])] = x.End()
+								}
+							}
+						}
+					}
+				}
+				return true
+			})
+			ast.Inspect(body, func(n ast.Node) bool {
+				call, ok := n.(*ast.CallExpr)
+				if !ok {
+					return true
+				}
+				f, isF := core.Callee(hd.Pkg, call).(*types.Func)
+				if !isF || f.Pkg() == nil || f.Pkg().Path() != hd.Pkg.PkgPath {
+					return true
+				}
+				for i, a := range call.Args {
+					if isUnnamedExpr(a) {
+						if paramUnnamed[f.FullName()] == nil {
+							paramUnnamed[f.FullName()] = map[int]bool{}
+						}
+						paramUnnamed[f.FullName()][i] = true
+					}
+				}
+				return true
+			})
+			sortedAt := map[string][]token.Pos{}
+			ast.Inspect(body, func(n ast.Node) bool {
+				if call, ok := n.(*ast.CallExpr); ok && len(call.Args) >= 1 {
+					switch core.FullName(core.Callee(hd.Pkg, call)) {
+					case "sort.Strings", "slices.Sort", "sort.Sort", "sort.Stable":
+						sortedAt[core.ExprStr(call.Args[0])] = append(sortedAt[core.ExprStr(call.Args[0])], call.Pos())
+					}
+				}
+				return true
+			})
+			isAdd := func(m ast.Node) bool {
+				call, ok := m.(*ast.CallExpr)
+				return ok && strings.HasSuffix(core.ExprStr(call.Fun), "UserTypesNamesUsed.Add")
+			}
+			// (B) loops over a list of unnamed-type names
+			for _, lp := range collLoops(hd.Pkg, body) {
+				coll := lp.coll
+				raw := ""
+				if ex := exprOf(hd, lp); ex != nil {
+					raw = core.ExprStr(ast.Unparen(ex))
+				}
+				walksUnnamed := unnamed[coll] || unnamed[raw]
+				if ex := exprOf(hd, lp); ex != nil && isUnnamedExpr(ex) {
+					walksUnnamed = true
+				}
+				if !walksUnnamed {
+					continue
+				}
+				res.loops++
+				ast.Inspect(lp.body, func(m ast.Node) bool {
+					if isAdd(m) {
+						res.bad = append(res.bad, "adds to the used-types set inside the loop over the unnamed types at "+c.P.Pos(m.Pos()))
+					}
+					if call, ok := callsAdder(m); ok {
+						res.bad = append(res.bad, "calls "+core.ExprStr(call.Fun)+", which adds to the used-types set, inside the loop over the unnamed types at "+c.P.Pos(m.Pos()))
+					}
+					if as, ok := m.(*ast.AssignStmt); ok && len(as.Lhs) == 1 && len(as.Rhs) == 1 {
+						if call, isC := as.Rhs[0].(*ast.CallExpr); isC && core.ExprStr(call.Fun) == "append" {
+							tainted[core.ExprStr(as.Lhs[0])] = lp.node.End()
+						}
+					}
+					return true
+				})
+			}
+			// (C) a list collected in that order is sorted before it feeds the set / is returned
+			sortedAfter := func(name string, after, before token.Pos) bool {
+				for _, p := range sortedAt[name] {
+					if p > after && p < before {
+						return true
+					}
+				}
+				return false
+			}
+			for _, lp := range collLoops(hd.Pkg, body) {
+				name := lp.coll
+				if ex := exprOf(hd, lp); ex != nil {
+					if _, ok := tainted[core.ExprStr(ast.Unparen(ex))]; ok {
+						name = core.ExprStr(ast.Unparen(ex))
+					}
+				}
+				lp.coll = name
+				end, isT := tainted[lp.coll]
+				if !isT || lp.node.Pos() < end {
+					continue
+				}
+				adds := false
+				ast.Inspect(lp.body, func(m ast.Node) bool {
+					if isAdd(m) {
+						adds = true
+					}
+					return true
+				})
+				if adds && !sortedAfter(lp.coll, end, lp.node.Pos()) {
+					res.bad = append(res.bad, core.F("the names in `%s` were collected in the order of the unnamed types and reach the used-types set unsorted (loop at %s)", lp.coll, c.P.Pos(lp.node.Pos())))
+				}
+			}
+			ast.Inspect(body, func(n ast.Node) bool {
+				call, ok := callsAdder(n)
+				if !ok {
+					return true
+				}
+				for _, a := range call.Args {
+					name := core.ExprStr(ast.Unparen(a))
+					if end, isT := tainted[name]; isT && call.Pos() > end && !sortedAfter(name, end, call.Pos()) {
+						res.bad = append(res.bad, core.F("the names in `%s` were collected in the order of the unnamed types and are handed unsorted to %s, which adds them to the used-types set (%s)", name, core.ExprStr(call.Fun), c.P.Pos(call.Pos())))
+					}
+				}
+				return true
+			})
+			if self != nil {
+				ast.Inspect(body, func(n ast.Node) bool {
+					if isAdd(n) {
+						addsToSet[self.FullName()] = true
+					}
+					if _, ok := callsAdder(n); ok {
+						addsToSet[self.FullName()] = true
+					}
+					return true
+				})
+			}
+			// summaries for the callers
+			ast.Inspect(body, func(n ast.Node) bool {
+				if _, isLit := n.(*ast.FuncLit); isLit {
+					return false
+				}
+				r, ok := n.(*ast.ReturnStmt)
+				if !ok || len(r.Results) == 0 {
+					return true
+				}
+				name := core.ExprStr(r.Results[0])
+				obj, _ := hd.Pkg.TypesInfo.Defs[hd.Decl.Name].(*types.Func)
+				if obj == nil {
+					return true
+				}
+				if unnamed[name] {
+					returnsUnnamed[obj.FullName()] = true
+				}
+				if end, isT := tainted[name]; isT && !sortedAfter(name, end, r.Pos()) {
+					returnsTainted[obj.FullName()] = true
+				}
+				return true
+			})
+			return res
+		}
+		// helpers first (two passes settle the summaries), then the root
+		var bad []string
+		loops := 0
+		for pass := 0; pass < 4; pass++ {
+			bad, loops = nil, 0
+			for i := len(decls) - 1; i >= 0; i-- {
+				r := analyse(decls[i])
+				bad = append(bad, r.bad...)
+				loops += r.loops
+			}
+		}
+		if loops == 0 {
+			c.Bad(R, "CollectUserTypes:unnamed-order", c.P.Pos(root.Decl.Pos()), "walk over the unnamed types", "undecided: no loop over the names of the unnamed types found")
+			return
+		}
+		c.Check(len(bad) == 0, R, "CollectUserTypes:unnamed-order", c.P.Pos(root.Decl.Pos()), core.F("names collected from the unnamed types are sorted before they are added (%d walk(s))", loops), strings.Join(bad, "; "))
+	}
+}
+
+// exprOf: the collection expression of a loop as written (for a hoisted local: its defining expression).
+func exprOf(hd *core.DeclSite, lp collLoop) ast.Expr {
+	switch l := lp.node.(type) {
+	case *ast.RangeStmt:
+		return l.X
+	}
+	return nil
 }
